@@ -260,6 +260,9 @@ class _VersionConverter:
     def __init__(self, target_version: int):
         self._target_version = target_version
         self._modified: bool = False
+        # Value names used anywhere in the model (all graphs, subgraphs and functions)
+        self._used_value_names: set[str] = set()
+        self._value_name_counter = 0
         # Default metadata merger: no merging should be needed; keep the first value.
         self._default_metadata_merger: metadata_merger.MetadataMerger = (
             metadata_merger.MetadataMerger(
@@ -283,6 +286,37 @@ class _VersionConverter:
                 output = [output]
             return Replacement(output, context.nodes)
         return None
+
+    def _collect_value_names(self, model: ir.Model) -> None:
+        names = self._used_value_names
+
+        def enter_graph(graph_like) -> None:
+            names.update(v.name for v in graph_like.inputs if v.name)
+
+        for graph_like in (model.graph, *model.functions.values()):
+            names.update(v.name for v in graph_like.inputs if v.name)
+            for node in ir.traversal.RecursiveGraphIterator(graph_like, enter_graph=enter_graph):
+                names.update(v.name for v in node.inputs if v is not None and v.name)
+                names.update(v.name for v in node.outputs if v.name)
+
+    def _name_new_values(self, new_nodes: Sequence[ir.Node]) -> None:
+        """Name the values an adapter created so that they clash with no value of any scope.
+
+        NameFixPass only sees the names defined before a subgraph when it renames inside it;
+        a rewrite inside a subgraph and a later one in the enclosing graph would otherwise both
+        define val_0, which is not in SSA form.
+        """
+        for new_node in new_nodes:
+            for value in new_node.outputs:
+                if value.name:
+                    continue
+                while True:
+                    name = f"val_{self._value_name_counter}"
+                    self._value_name_counter += 1
+                    if name not in self._used_value_names:
+                        break
+                self._used_value_names.add(name)
+                value.name = name
 
     def replace_node(self, node: ir.Node, replacement, root: ir.Graph | ir.Function) -> None:
         logger.debug("Replacing node: %s::%s %s", node.domain, node.op_type, node.name)
@@ -323,6 +357,7 @@ class _VersionConverter:
                 # TODO: control-flow
                 new_node.version = to_version
             self._default_metadata_merger.copy_merged_metadata([node], replacement.new_nodes)
+            self._name_new_values(replacement.new_nodes)
             self.replace_node(node, replacement, root)
 
     def visit_graph_or_function(self, graph_or_function: ir.Graph | ir.Function) -> None:
@@ -358,6 +393,7 @@ class _VersionConverter:
 
     def visit_model(self, model: ir.Model) -> None:
         self._default_onnx_opset = _get_onnx_opset_version(model)
+        self._collect_value_names(model)
         self.visit_graph_or_function(model.graph)
         for function in model.functions.values():
             self.visit_graph_or_function(function)
